@@ -1,6 +1,6 @@
 (* Model of Header::get_header_list, Cors, the controller chain App::execute (static part),
    Response::generate_response and Server::process *)
-From Rws Require Import Str Utf8 Num Fs UrlParse RangeSpec Request GenMime Mime StaticRes GenConsts Forms.
+From Rws Require Import Str Utf8 Num Unicase Fs UrlParse RangeSpec Request GenMime Mime StaticRes GenConsts Forms.
 Open Scope N_scope.
 
 Record response := mkResp { rs_status : N; rs_reason : list N; rs_headers : list header; rs_ranges : list crange }.
@@ -24,7 +24,7 @@ Definition cors_allow_all (r : request) : list header :=
     (if beqs (method r) OPTIONS then
        (match get_header r Hd_ACCESS_CONTROL_REQUEST_METHOD with Some m => [H Hd_ACCESS_CONTROL_ALLOW_METHODS (hvalue m)] | None => [] end) ++
        (match get_header r Hd_ACCESS_CONTROL_REQUEST_HEADERS with
-        | Some h => [H Hd_ACCESS_CONTROL_ALLOW_HEADERS (lower (hvalue h)); H Hd_ACCESS_CONTROL_EXPOSE_HEADERS (lower (hvalue h))]
+        | Some h => [H Hd_ACCESS_CONTROL_ALLOW_HEADERS (ulower (hvalue h)); H Hd_ACCESS_CONTROL_EXPOSE_HEADERS (ulower (hvalue h))]
         | None => [] end) ++
        [H Hd_ACCESS_CONTROL_MAX_AGE Co_MAX_AGE]
      else [])
@@ -38,8 +38,8 @@ Definition cors_off (origins creds methods hdrs expose maxage : list N) (r : req
     [H Hd_ACCESS_CONTROL_ALLOW_ORIGIN (hvalue o)] ++
     (if beqs creds TRUE then [H Hd_ACCESS_CONTROL_ALLOW_CREDENTIALS TRUE] else []) ++
     (if beqs (method r) OPTIONS then
-       [H Hd_ACCESS_CONTROL_ALLOW_METHODS methods; H Hd_ACCESS_CONTROL_ALLOW_HEADERS (lower hdrs);
-        H Hd_ACCESS_CONTROL_EXPOSE_HEADERS (lower expose); H Hd_ACCESS_CONTROL_MAX_AGE maxage]
+       [H Hd_ACCESS_CONTROL_ALLOW_METHODS methods; H Hd_ACCESS_CONTROL_ALLOW_HEADERS (ulower hdrs);
+        H Hd_ACCESS_CONTROL_EXPOSE_HEADERS (ulower expose); H Hd_ACCESS_CONTROL_MAX_AGE maxage]
      else [])
   end.
 Definition cors_headers (c : cors_cfg) (r : request) : list header :=
@@ -164,7 +164,7 @@ Definition urlenc_controller (r : request) (rs0 : response) : fres :=
   match get_header r Hd_CONTENT_TYPE with
   | None => FNoMatch
   | Some ct =>
-    if negb (beqs (lower (hvalue ct)) CT_URLENC) then FNoMatch else
+    if negb (beqs (ulower (hvalue ct)) CT_URLENC) then FNoMatch else
     if negb (beqs (uri r) PATH_FORM_URLENC && beqs (method r) POST) then FNoMatch else
     match form_urlencoded_parse (body r) with
     | None => FResp (mkResp 400 (reason 400) (rs_headers rs0) [text_range []])     (* fix: the prepared 400 is returned *)
@@ -189,7 +189,7 @@ Fixpoint multi_lines (ps : list part) : option (option (list N)) :=   (* None = 
   match ps with
   | [] => Some (Some [])
   | p :: rest =>
-    match find (fun h => beqs (lower (hname h)) (lower CD_NAME)) (p_headers p) with
+    match find (fun h => beqs (ulower (hname h)) (ulower CD_NAME)) (p_headers p) with
     | None => Some None
     | Some h =>
       match cd_parse (hvalue h) with
@@ -214,7 +214,7 @@ Definition multipart_controller (r : request) (rs0 : response) : fres :=
     | UPanicPort => FPanicPort
     | UErr _ => FNoMatch
     | UOk p =>
-      if negb (starts_with (filter_ascii_control (lower (hvalue ct))) CT_MULTI_PREFIX) then FNoMatch else
+      if negb (starts_with (filter_ascii_control (ulower (hvalue ct))) CT_MULTI_PREFIX) then FNoMatch else
       if negb (beqs p PATH_FORM_MULTI && beqs (method r) POST) then FNoMatch else
       let bad := mkResp 400 (reason 400) (rs_headers rs0) [text_range []] in
       match extract_boundary (hvalue ct) with
